@@ -31,7 +31,9 @@ type renderStream struct {
 
 var c15MsgAtoms = []string{"hello", " ", "\n", "\r\n", "\r", "world", "\x00", "\xff\xfe", "ünï", "tab\t", "a=b", "[x]", "\n\n", "end", "{\"k\":1}", "%s", "\\n",
 	// messages that carry their own escape sequences: they are message bytes like any other
-	"\x1b[31m", "\x1b[0m", "\x1b[1;32mok", "\x1b[2K", "\x1b"}
+	"\x1b[31m", "\x1b[0m", "\x1b[1;32mok", "\x1b[2K", "\x1b",
+	// bytes a "clean-up" likes to touch: byte order mark, no-break / zero-width space, line separator, a real U+FFFD
+	"\xef\xbb\xbf", "\u00a0", "\u200b", "\u2028", "\ufffd", "\x7f"}
 
 func genRenderData(r *vk.RNG, maxContainers int) []renderStream {
 	nc := r.Range(0, maxContainers)
